@@ -7,19 +7,37 @@ Import ListNotations.
 Require Import MS.Base.GoInt MS.Base.Res MS.Base.Hex MS.Generated.Src_io MS.Generated.Src_wire
   MS.Model.Rows MS.Model.Wire MS.Proofs.Wire_facts.
 
-(** Guarded statement (what holds of the code at HEAD).  For EVERY list of buckets inside the guard —
-    any number >= 1 of buckets with pairwise distinct canonical keys, any shared shape of >= 1 columns
-    over the wire-supported types, any values, any row counts >= 1 — folded in the given order
-    (= any Go map iteration order): the dataset is built, and for every structure [w'] that equals it
-    up to the order of the StartIndex / Lengths maps, BOTH decoders (write path
-    NumpyMultiDataset.ToColumnSeriesMap, query path MultiQueryResponse.ToColumnSeriesMap) return
-    exactly the input buckets (keys, column names in order, types, value bit patterns) as a finite map. *)
-Theorem C27_guarded : forall bs, guard bs = true ->
+(** Model of the code after the fixes in /repo (zero-row buckets survive ToColumnSeriesMap; Append compares
+    the column types as well as the names).
+
+    For EVERY list of buckets of the property's domain [dom] (any number >= 1 of buckets with pairwise
+    distinct keys, each a well-formed series of >= 1 columns over the wire-supported types, ANY row counts
+    INCLUDING ZERO, ANY mix of shapes) whose keys are canonical, folded in the given order (= any Go map
+    iteration order): either the conversion is refused with an error (exactly when the shapes differ:
+    C27_mixed_rejected), or the dataset is built and for every structure [w'] equal to it up to the order
+    of the StartIndex / Lengths maps BOTH decoders return exactly the input buckets (keys, column names
+    in order, types, value bit patterns) as a finite map. *)
+Theorem C27_guarded : forall bs, dom bs = true -> keys_canonical bs = true ->
+  encode bs = Rejected
+  \/ exists w, encode bs = Ok (Some w)
+       /\ forall w', wire_equiv w w' ->
+          exists m1 m2, to_csm w' = Ok m1 /\ Permutation m1 bs /\ resp_to_csm w' = Ok m2 /\ Permutation m2 bs.
+Proof. exact wire_roundtrip_or_rejected. Qed.
+Print Assumptions C27_guarded.
+
+(** Buckets sharing one shape are never refused: the dataset is built and round-trips. *)
+Theorem C27_same_shapes_roundtrip : forall bs, guard bs = true ->
   exists w, encode bs = Ok (Some w)
     /\ forall w', wire_equiv w w' ->
        exists m1 m2, to_csm w' = Ok m1 /\ Permutation m1 bs /\ resp_to_csm w' = Ok m2 /\ Permutation m2 bs.
 Proof. exact wire_roundtrip. Qed.
-Print Assumptions C27_guarded.
+Print Assumptions C27_same_shapes_roundtrip.
+
+(** Buckets of different shapes (column count, a name, or only a TYPE) are refused with an error. *)
+Theorem C27_mixed_rejected : forall bs,
+  dom bs = true -> keys_canonical bs = true -> same_shapes bs = false -> encode bs = Rejected.
+Proof. exact mixed_shapes_rejected. Qed.
+Print Assumptions C27_mixed_rejected.
 
 (** The same through any msgpack codec that returns the structure up to map order (section
     hypothesis; the real codec is what the harness runs). *)
@@ -38,62 +56,41 @@ Theorem C27_names_rejected : forall w cs k,
 Proof. exact append_rejects_names. Qed.
 Print Assumptions C27_names_rejected.
 
-(** Full statement (the property as given: all column series over the wire types, lengths including
-    zero, any number of buckets): inside the property's own domain [dom] the conversion is refused
-    with an error or decodes to the input buckets.  Refuted three times by the faithful model, each
-    time by a witness satisfying all the guards of the previous classes. *)
+(** Full statement (the property as given, over arbitrary distinct bucket keys): inside the property's
+    own domain [dom] the conversion is refused with an error or decodes to the input buckets.  Still
+    refuted by the one remaining defect class. *)
 Definition roundtrips (bs : list bucket) : Prop :=
   encode bs = Rejected
   \/ exists w, encode bs = Ok (Some w) /\ exists m, to_csm w = Ok m /\ Permutation m bs.
 
 Definition C27_full : Prop := forall bs, dom bs = true -> roundtrips bs.
-Definition C27_full_nonzero : Prop := forall bs, dom bs = true -> no_zero_rows bs = true -> roundtrips bs.
-Definition C27_full_nonzero_sameshape : Prop :=
-  forall bs, dom bs = true -> no_zero_rows bs = true -> same_shapes bs = true -> roundtrips bs.
 
 Definition kA : key := bytes_of_string "A/1Min/OHLCV:Symbol/Timeframe/AttributeGroup".
 Definition kB : key := bytes_of_string "B/1Min/OHLCV:Symbol/Timeframe/AttributeGroup".
 Definition one : list byte := [x01; x00; x00; x00; x00; x00; x00; x00].
 
-(** class zero-row-bucket: the second bucket has no rows and vanishes from the decoded map *)
+(** Regression (formerly C27_refuted): the second bucket has no rows; it now survives with its empty,
+    correctly typed column. *)
 Definition C27_witness_zero : list bucket :=
   [ (kA, [mkcol epoch_name ET_INT64 one]); (kB, [mkcol epoch_name ET_INT64 []]) ].
+Example C27_regression_zero :
+  exists w, encode C27_witness_zero = Ok (Some w) /\ to_csm w = Ok C27_witness_zero /\ resp_to_csm w = Ok C27_witness_zero.
+Proof. eexists. split; [vm_compute; reflexivity|]. split; vm_compute; reflexivity. Qed.
 
-Theorem C27_refuted : ~ C27_full.
-Proof.
-  intros H. destruct (H C27_witness_zero eq_refl) as [Hr|(w & Hw & m & Hm & Hp)].
-  - vm_compute in Hr. discriminate Hr.
-  - vm_compute in Hw. inversion Hw; subst w. vm_compute in Hm. inversion Hm; subst m.
-    apply Permutation_length in Hp. discriminate Hp.
-Qed.
-Print Assumptions C27_refuted.
-
-(** class same-names-different-types: Append compares names only; the float32 column of the second
-    bucket comes back typed int32 *)
+(** Regression (formerly C27_refuted_types): same names, different types is now refused. *)
 Definition C27_witness_types : list bucket :=
   [ (kA, [mkcol [x58] ET_INT32 [x01; x00; x00; x00]]); (kB, [mkcol [x58] ET_FLOAT32 [x00; x00; x80; x3f]]) ].
-
-Theorem C27_refuted_types : ~ C27_full_nonzero.
-Proof.
-  intros H. destruct (H C27_witness_types eq_refl eq_refl) as [Hr|(w & Hw & m & Hm & Hp)].
-  - vm_compute in Hr. discriminate Hr.
-  - vm_compute in Hw. inversion Hw; subst w. vm_compute in Hm. inversion Hm; subst m.
-    apply Permutation_sym in Hp.
-    assert (Hin : In (kB, [mkcol [x58] ET_FLOAT32 [x00; x00; x80; x3f]]) C27_witness_types)
-      by (right; left; reflexivity).
-    apply (Permutation_in _ Hp) in Hin. vm_compute in Hin.
-    destruct Hin as [Hin|[Hin|[]]]; discriminate Hin.
-Qed.
-Print Assumptions C27_refuted_types.
+Example C27_regression_types : encode C27_witness_types = Rejected.
+Proof. vm_compute. reflexivity. Qed.
 
 (** class noncanonical-bucket-key: NewTimeBucketKeyFromString keeps only the first two
     colon-separated parts, so the key "A:B:C" comes back as "A:B" *)
 Definition C27_witness_key : list bucket :=
   [ ([x41; x3a; x42; x3a; x43], [mkcol epoch_name ET_INT64 one]) ].
 
-Theorem C27_refuted_key : ~ C27_full_nonzero_sameshape.
+Theorem C27_refuted_key : ~ C27_full.
 Proof.
-  intros H. destruct (H C27_witness_key eq_refl eq_refl eq_refl) as [Hr|(w & Hw & m & Hm & Hp)].
+  intros H. destruct (H C27_witness_key eq_refl) as [Hr|(w & Hw & m & Hm & Hp)].
   - vm_compute in Hr. discriminate Hr.
   - vm_compute in Hw. inversion Hw; subst w. vm_compute in Hm. inversion Hm; subst m.
     apply Permutation_sym in Hp.
@@ -110,8 +107,7 @@ Print Assumptions C27_refuted_key.
 Example C27_nonvacuous :
   guard [ (kA, [mkcol epoch_name ET_INT64 (repeat x01 16); mkcol [x58] ET_FLOAT32 (repeat x02 8);
                 mkcol [x59] ET_STRING16 (repeat x03 128)]);
-          (kB, [mkcol epoch_name ET_INT64 (repeat x04 8); mkcol [x58] ET_FLOAT32 (repeat x05 4);
-                mkcol [x59] ET_STRING16 (repeat x06 64)]);
+          (kB, [mkcol epoch_name ET_INT64 []; mkcol [x58] ET_FLOAT32 []; mkcol [x59] ET_STRING16 []]);   (* zero rows *)
           (new_tbk (bytes_of_string "C/1D/TICK") (bytes_of_string "Sym/TF/AG"),
                [mkcol epoch_name ET_INT64 (repeat x07 24); mkcol [x58] ET_FLOAT32 (repeat x08 12);
                 mkcol [x59] ET_STRING16 (repeat x09 192)]) ] = true.
